@@ -52,6 +52,14 @@ class Repartition(Expr):
     def _divisions(self):
         if (
             self.operand("new_partitions") is not None
+            and type(self) is Repartition
+            and not self.frame.known_divisions
+        ):
+            # lowering looks at the divisions the frame reports: unknown ones
+            # stay unknown, whatever the lowered frame would say
+            return (None,) * (self.new_partitions + 1)
+        if (
+            self.operand("new_partitions") is not None
             or self.partition_size is not None
         ):
             x = self.optimize(fuse=False)
@@ -66,7 +74,16 @@ class Repartition(Expr):
         ):
             new_partitions = self.operand("new_partitions")
             if isinstance(new_partitions, Callable):
-                return new_partitions(self.frame.npartitions)
+                new_partitions = new_partitions(self.frame.npartitions)
+            if (
+                type(self) is Repartition
+                and new_partitions > self.frame.npartitions
+                and self.frame.known_divisions
+            ):
+                # with known numeric or datetime divisions the interpolated
+                # divisions are de-duplicated when lowering: fewer partitions
+                # than requested may come out
+                return len(self.divisions) - 1
             return new_partitions
         return super().npartitions
 
